@@ -66,19 +66,49 @@ async fn compare(sink: &mut Sink, slot: &Slot, v: u64, class: usize, ctx: &serde
     let fresh = observe(&open_fresh(&slot.uri, Some(v)).await?).await;
     let dsh = slot.tbl.ds.clone();
     let shared = match guarded(async move { dsh.checkout_version(v).await }).await {
-        Ok(d) => observe(&d).await,
+        Ok(d) => {
+            let mut o = observe(&d).await;
+            if std::env::var("HX_C38_PLANT").as_deref() == Ok("read") && v == 2 && class == 2 {
+                // sanity plant: the session answered another row count
+                o.comp.insert("count", "planted".into());
+            }
+            o
+        }
         Err(e) => {
             sink.oracle_fail(None, &format!("version {v} does not check out through the shared session: {e}"), ctx.clone());
             return Ok(());
         }
     };
-    let df = diff(&fresh, &shared);
+    classify(sink, slot, v, class, ctx, "checkout_version", &fresh, &shared);
+    if v == *slot.versions.last().unwrap() {
+        // the latest version also through checkout_latest() of an OLD handle (latest_manifest: ManifestKey{version, e_tag})
+        let old = slot.tbl.ds.clone();
+        let v0 = slot.versions[0];
+        match guarded(async move {
+            let mut d = old.checkout_version(v0).await?;
+            d.checkout_latest().await?;
+            Ok(d)
+        })
+        .await
+        {
+            Ok(d) => {
+                let o = observe(&d).await;
+                classify(sink, slot, v, class, ctx, "checkout_latest", &fresh, &o);
+            }
+            Err(e) => sink.oracle_fail(None, &format!("checkout_latest through the shared session failed: {e}"), ctx.clone()),
+        }
+    }
+    Ok(())
+}
+
+fn classify(sink: &mut Sink, slot: &Slot, v: u64, class: usize, ctx: &serde_json::Value, how: &str, fresh: &Obs, shared: &Obs) {
+    let df = diff(fresh, shared);
     if df.is_empty() {
         sink.oracle_ok();
-        return Ok(());
+        return;
     }
-    let case = json!({"ctx": ctx, "uri_recreated": slot.recreated, "version": v, "cache": class_name(class), "stable_row_ids": slot.tbl.stable, "log": slot.tbl.log.clone(), "diff": diff_json(&fresh, &shared, "fresh", "shared")});
-    let what = format!("version {v} read through the shared session (cache {}) differs from a fresh session in {:?}", class_name(class), df);
+    let case = json!({"ctx": ctx, "how": how, "uri_recreated": slot.recreated, "version": v, "cache": class_name(class), "stable_row_ids": slot.tbl.stable, "log": slot.tbl.log.clone(), "diff": diff_json(fresh, shared, "fresh", "shared")});
+    let what = format!("version {v} read through the shared session ({how}, cache {}) differs from a fresh session in {:?}", class_name(class), df);
     if class == 0 {
         // nothing is cached: no class applies
         sink.oracle_fail(None, &what, case);
@@ -91,7 +121,6 @@ async fn compare(sink: &mut Sink, slot: &Slot, v: u64, class: usize, ctx: &serde
     } else {
         sink.oracle_fail(None, &what, case);
     }
-    Ok(())
 }
 
 fn run_c38(args: &Args) -> i32 {
